@@ -403,7 +403,12 @@ fn run_plan(db: &GrafeoDB, plan: &LogicalPlan, opt: &Optimizer) -> (Option<Logic
         let ex = Executor::with_columns(phys.columns.clone());
         match ex.execute(phys.operator.as_mut()) {
             Ok(r) => (Some(optimized), Ok(r.rows)),
-            Err(_) => (Some(optimized), Err("exec-error".to_string())),
+            Err(e) => {
+                if std::env::var_os("GV_C09_DEBUG").is_some() {
+                    eprintln!("exec-error: {e}");
+                }
+                (Some(optimized), Err("exec-error".to_string()))
+            }
         }
     }));
     match r {
@@ -509,11 +514,11 @@ fn treat(out: &mut Out, fx: &mut Fixture, kind: &str, text: &str, plan: &Logical
         case.oracle = Oracle::Fail;
         case.msg = format!("reference (no rewrites, fresh statistics): {} ;; differing: {}", &ref_canon[..ref_canon.len().min(300)], diffs.join(" ;; "));
         if let (Some(b), Some(a)) = (&before, &afters_coq) {
-            // the class is decided in Coq: `k_class` = 0 (none) | 1 | 2 | 3 | 4; checks/c09.py turns the
+            // the class is decided in Coq: `k_class_g` = 0 (none) | 1 | 2 | 4 | 5; checks/c09.py turns the
             // number into the finding id before the standard decision procedure runs
             case.kid = Some("C09-K?".into());
             let _ = b;
-            case.kcoq = Some(format!("{}k_class pb {}", lets, a));
+            case.kcoq = Some(format!("{}k_class_g {} pb {}", lets, g, a));
         }
         tags.push("oracle-fail".into());
     }
@@ -997,10 +1002,19 @@ fn gen_plan(r: &mut Rng) -> (LogicalPlan, String, Vec<String>) {
 fn corpus(out: &mut Out) {
     let mut fx = corpus_fixture();
     // C09-K1: the witness of push_filters_refuted (a predicate over a comma pattern and a later MATCH)
-    let qs: [(&str, bool, bool); 18] = [
-        // C09-K3: push-down stacks the WHERE on the label filter of the expand target
+    let qs: Vec<(&str, bool, bool)> = vec![
+        // C09-K3 (repaired by df57ccb, must pass now): push-down stacks the WHERE on the label filter of
+        // the expand target; a property map under a WHERE; WHERE .. WITH .. WHERE
         ("MATCH (c:C) MATCH (a:A)-[:R]->(b:B) WHERE a.v = 1 RETURN a.u, b.u, c.u", false, true),
         ("MATCH (a:A {v: 1}) WHERE a.u > 0 RETURN a.v, a.u", false, true),
+        ("MATCH (a:A {v: 1}) WHERE a.v >= 0 RETURN a.v, a.u", false, true),
+        ("MATCH (a:A) WHERE a.v > 0 WITH a WHERE a.v < 3 RETURN a.v, a.u", false, true),
+        ("MATCH (a:A)-[:R]->(b:B) WHERE b.v > 0 AND a.v = 0 RETURN a.u, b.u", false, true),
+        ("MATCH (c:C) MATCH (a:A {v: 0})-[:R]->(b:B {v: 1}) WHERE a.u = 100 RETURN a.u, b.u, c.u", false, true),
+        // C09-K5: a hop of a two-hop chain without any match (no C node has an outgoing R edge; b2 has
+        // no outgoing S edge) next to a join
+        ("MATCH (a:C)-[:R]->(b)-[:S]->(c) MATCH (x:B) WHERE x.v <> 7 RETURN a.u, x.u", false, false),
+        ("MATCH (a:A)-[:S]->(b)-[:S]->(c) MATCH (x:B) WHERE x.v <> 7 RETURN a.u, x.u", false, false),
         // C09-K4: an edge property above / below a join
         ("MATCH (a:A)-[r:R]->(b) MATCH (c:C) WHERE r.ew > 1 RETURN a.u, b.u, c.u", false, false),
         ("MATCH (a:A)-[r:R]->(b) WHERE r.ew > 1 RETURN a.u, b.u", false, true),
@@ -1049,6 +1063,30 @@ fn corpus(out: &mut Out) {
             "filter over Return alias",
             filter(bin(var("k"), BinaryOp::Gt, int(1)), ret(vec![(prop("x", "v"), Some("k"))], scan("x", "A"))),
         ),
+        // C09-K3 (repaired): three filters stacked directly on a scan; the push-down keeps the stack
+        (
+            "stacked filters",
+            ret(
+                vec![(prop("x", "u"), None)],
+                filter(
+                    bin(prop("x", "v"), BinaryOp::Ge, int(0)),
+                    filter(bin(prop("x", "v"), BinaryOp::Lt, int(3)), filter(bin(prop("x", "v"), BinaryOp::Gt, int(0)), scan("x", "A"))),
+                ),
+            ),
+        ),
+        (
+            "stacked filters above a cross join, pushed to different sides",
+            ret(
+                vec![(prop("x", "u"), None), (prop("y", "u"), None)],
+                filter(
+                    bin(prop("x", "v"), BinaryOp::Ge, int(2)),
+                    filter(
+                        bin(prop("y", "v"), BinaryOp::Lt, int(2)),
+                        join(JoinType::Cross, vec![], filter(bin(prop("x", "v"), BinaryOp::Lt, int(3)), scan("x", "A")), scan("y", "B")),
+                    ),
+                ),
+            ),
+        ),
         // a sound reordering opportunity: three same-label scans, chain conditions, no filters
         (
             "chain of Inner joins",
@@ -1090,6 +1128,36 @@ fn main() {
                 Err(e) => println!("  translate: {e}"),
             }
         }
+        return;
+    }
+    if a.rest.first().map(|s| s.as_str()) == Some("probeq") {
+        // debugging aid: regenerate the graph on which the generated query a.rest[1] was run (same
+        // --seed), print it, and run the remaining arguments as GQL queries on it
+        let mut r = Rng::new(a.seed);
+        for _ in 0..20000 {
+            let mut fr = r.fork();
+            let fx = gen_fixture(&mut fr);
+            for _ in 0..4 {
+                let q = if r.chance(1, 5) { gen_plan(&mut r).1 } else { gen_query(&mut r).0 };
+                if q == a.rest[1] {
+                    println!("{}", fx.coq());
+                    for q in &a.rest[1..] {
+                        println!("== {q}");
+                        if let Ok(plan) = gql_translator::translate(q) {
+                            for m in [0u32, 1, 7] {
+                                let (o, oc) = run_plan(&fx.db, &plan, &switches(Optimizer::from_store(fx.db.store()), m));
+                                println!("  [{}] {}", m, canon(&oc, true));
+                                if let Some(o) = o {
+                                    println!("      {}", cplan(&o.root).unwrap_or_else(|| format!("{:?}", o.root)));
+                                }
+                            }
+                        }
+                    }
+                    return;
+                }
+            }
+        }
+        println!("not found");
         return;
     }
     let mut out = Out::create(a.out.as_deref());
